@@ -148,7 +148,9 @@ inductive Label
   | start
   | tick
   | crash
-  | wake                 -- the oldest blocked offer is signalled (`hasMoreSpace.Signal`) and re-checks the capacity
+  | wake                 -- the blocked offer at the head of `waiting` re-locks the queue and re-checks the capacity
+  | promote (j : Nat)    -- scheduler choice: of the producers woken by `hasMoreSpace.Broadcast` (all of them since c2c5f2c26),
+                         -- the j-th is the next to re-lock the queue mutex: it becomes the head of `waiting`
   | cancel (j : Nat)     -- the context of the j-th blocked offer is cancelled: its `Offer` returns the context error
 deriving Repr
 
@@ -199,6 +201,14 @@ def doWake (c : Cfg) (m : Mem) : Cfg :=
     if m.size + c.k.sizeof r > c.k.cap then
       { c with ph := .live { m with waiting := rest ++ [r] } .idle, res := .offerBlocked }
     else doPut c { m with waiting := rest } r
+
+/-- `Broadcast` wakes every waiter; they re-lock the mutex in an order chosen by the Go scheduler.  `promote j` makes the
+    j-th blocked offer the next one to do so (memory only); `wake` then lets it go round `putInternal`'s loop.  A woken
+    producer that does not fit re-registers at the back. -/
+def doPromote (c : Cfg) (m : Mem) (j : Nat) : Cfg :=
+  match m.waiting[j]? with
+  | none => c
+  | some r => { c with ph := .live { m with waiting := r :: m.waiting.eraseIdx j } .idle }
 
 def doCancel (c : Cfg) (m : Mem) (j : Nat) : Cfg :=
   { c with ph := .live { m with waiting := m.waiting.eraseIdx j } .idle, res := .offerCancelled }
@@ -322,6 +332,9 @@ def fire (c : Cfg) : Label → Cfg
     | _ => c
   | .cancel j => match c.ph with
     | .live m .idle => doCancel c m j
+    | _ => c
+  | .promote j => match c.ph with
+    | .live m .idle => doPromote c m j
     | _ => c
 
 def init (k : Conf) : Cfg := { k := k }
